@@ -489,8 +489,8 @@ Proof.
   eexists. cbn. split; [eapply nth_error_upd_same; eassumption|]. cbn.
   pose proof (sinv_close s (w_s _ W _ _ H)) as (A & B & C & D & F).
   assert (Hsd : sd (close_sess s) = true) by (unfold close_sess; destruct (sd s) eqn:E; [assumption|reflexivity]).
-  destruct (B Hsd) as (B1 & B2 & B3). repeat split; auto.
-  Show.
+  destruct (B Hsd) as (B1 & B2 & B3).
+  split; [exact Hsd|]. split; [exact B1|]. split; [reflexivity|]. split; [exact B2|]. split; [exact B3|exact W'].
 Qed.
 
 (* the same without EPOLLRDHUP: an EOF read closes, a read ERROR is swallowed (onReadReady returns with
